@@ -1,7 +1,9 @@
 // C13 - the configured tasking thread count is reported and never exceeded.
 // "Before initialisation" and "first initialisation" are process-level facts, so every case runs in a
 // forked child whose parent has never touched the tasking system; the child reports through a pipe.
+#define PBT_NO_WATCHDOG  // this harness forks a child per case
 #include "common/pbt.h"
+#include "common/forked.h"
 
 #include "rkcommon/tasking/parallel_for.h"
 #include "rkcommon/tasking/tasking_system_init.h"
@@ -156,35 +158,22 @@ static std::string childBody(const Case &c, bool &exercised)
 
 static void run_case(const Case &c, pbt::Ctx &ctx)
 {
-  int fd[2];
-  PBT_ASSERT(pipe(fd) == 0);
-  fflush(nullptr);
-  pid_t pid = fork();
-  PBT_ASSERT(pid >= 0);
-  if (pid == 0) {
-    close(fd[0]);
-    bool exercised = false;
-    std::string msg = childBody(c, exercised);
-    std::string out = (msg.empty() ? std::string("OK ") + (exercised ? "1" : "0") : "FAIL " + msg) + "\n";
-    ssize_t w = write(fd[1], out.data(), out.size());
-    (void)w;
-    close(fd[1]);
-    _exit(msg.empty() ? 0 : 1);  // no static destructors: the tasking runtimes are still alive
+  bool exercised = false;
+  // the child reports "exercised" through a label; failures come back as pbt::Failure
+  pbt::Ctx childCtx;
+  pbt::forked(childCtx, [&](pbt::Ctx &cc) {
+    bool ex = false;
+    std::string msg = childBody(c, ex);
+    if (ex)
+      cc.label("limit-exercised");
+    if (!msg.empty())
+      throw pbt::Failure{msg};
+  });
+  for (auto &l : childCtx.labels) {
+    ctx.label(l);
+    if (l == "limit-exercised")
+      exercised = true;
   }
-  close(fd[1]);
-  std::string got;
-  char buf[512];
-  ssize_t r;
-  while ((r = read(fd[0], buf, sizeof buf)) > 0)
-    got.append(buf, (size_t)r);
-  close(fd[0]);
-  int st = 0;
-  waitpid(pid, &st, 0);
-  if (got.compare(0, 5, "FAIL ") == 0)
-    PBT_FAIL(got.substr(5, got.size() - 6));
-  PBT_ASSERT_MSG(WIFEXITED(st) && WEXITSTATUS(st) == 0 && got.compare(0, 3, "OK ") == 0,
-      "the child process running the case died (status " << st << "): see the sanitizer report in the log");
-  bool exercised = got.size() > 3 && got[3] == '1';
   bool multi = false;
   if (c.first >= 2)
     multi = true;
@@ -196,8 +185,6 @@ static void run_case(const Case &c, pbt::Ctx &ctx)
     ctx.label("first-init-nonpositive");
   if (c.steps.size() >= 2)
     ctx.label("reinit>=2");
-  if (exercised)
-    ctx.label("limit-exercised");
 }
 
 static rc::Gen<Case> genCase()
